@@ -14,8 +14,8 @@ NO_RERUN = True
 DDMIN_FIELDS = ('programs',)
 RULE = ('one run = a seeded corpus of 4-10 programs compiled by 2-4 fresh interpreters, each started with its own seeded '
         'PYTHONHASHSEED, fake clock (epoch, rate), fake pid and private working directory (compile_prolog_from_file is used as well as compile_prolog_from_string; options objects are plain classes, the library default or subclasses of CompilerContext), each following its own seeded history (permutation, subsample, '
-        'repeats, interleaved debug-option variants incl. a debug stream that fails with an I/O error at its n-th write; the corpus also holds look-alike '
-        'twins and variants that make the compiler raise in the middle of a clause); a case = one (program text, options) target; non-trivial = the target '
+        'repeats, pairs of compilations running at the same time in two threads under a seeded baton scheduler with the package\'s source lines as pre-emption points, interleaved debug-option variants incl. a debug stream that fails with an I/O error at its n-th write; the corpus also holds look-alike '
+        'twins, variants with syntax errors and variants that make the compiler raise in the middle of a clause); a case = one (program text, options) target; non-trivial = the target '
         'was compiled at least twice under different hash seeds or at different history positions and its text has a clause '
         'with >= 2 distinct variables, an anonymous variable or an if-then-else/negation; distinct = hash of (text, options)')
 ASSUMPTIONS = [
@@ -23,10 +23,10 @@ ASSUMPTIONS = [
     'an exception type counts as the outcome; messages are not compared',
     'the wall clock is a seeded fake in the workers (the shipped compiler reads no clock; this is a guard for changes that do)',
 ]
-COMPONENTS = {'real': ['yldprolog.compiler pipeline incl. ANTLR runtime, one fresh CPython process per (hash seed, clock, history)'],
-              'stub': ['wall clock in the workers (time/datetime patched to a seeded fake)', 'debug output stream (in-memory)'],
+COMPONENTS = {'real': ['yldprolog.compiler pipeline incl. ANTLR runtime, one fresh CPython process per (hash seed, clock, history)', 'real threads for the concurrent pairs'],
+              'stub': ['thread scheduler (baton passing: one runnable thread, seeded switches at line events of the package; the ANTLR runtime is not pre-empted)', 'wall clock in the workers (time/datetime patched to a seeded fake)', 'debug output stream (in-memory)'],
               'oracle': ['byte equality of outcome and return value between interpreters and history positions']}
-REQUIRED_PROBES = ('outcome_EXC:OSError', 'outcome_EXC:CompilerError', 'interpreters', 'targets_compared_across_hashseeds', 'targets_compared_across_positions')
+REQUIRED_PROBES = ('pairs_compiled_concurrently', 'thread_preemptions_in_compiler_py', 'outcome_EXC:OSError', 'outcome_EXC:CompilerError', 'interpreters', 'targets_compared_across_hashseeds', 'targets_compared_across_positions')
 
 OPTIONS = [['', False, False], ['src/a.pl', False, False], ['', False, True], ['b.pl', True, True], ['', True, False], ['lib/b.pl', False, False],
            ['', False, True, 3], ['', True, True, 40],      # 4th element: the debug stream raises OSError at its n-th write (I/O fault)
@@ -42,7 +42,7 @@ def gen(seed, tier):
     # process (memo tables, half-updated scopes) must not show in the next
     for text in list(programs):
         r = rng.random()
-        extra = progs.unquoted_twin(text) if r < 0.5 else (progs.failing_variant(rng, text) if r < 0.85 else None)
+        extra = progs.unquoted_twin(text) if r < 0.4 else (progs.failing_variant(rng, text) if r < 0.7 else (progs.syntax_error_variant(rng, text) if r < 0.9 else None))
         if extra and extra not in programs:
             programs.append(extra)
     workers = []
@@ -59,6 +59,11 @@ def gen(seed, tier):
         # ... and program 0 through the library's own options objects, from a string and from a file
         for o in (10, 11):
             hist.insert(rng.randrange(len(hist) + 1), [0, o])
+        if rng.random() < 0.6:
+            # pairs of compilations that run at the same time in two threads of the interpreter (seeded pre-emption)
+            for _ in range(rng.randrange(1, 4)):
+                a, b = rng.randrange(len(programs)), rng.randrange(len(programs))
+                hist.insert(rng.randrange(len(hist) + 1), ['par', [a, 0], [b, rng.choice((0, 0, 1, 8))], rng.randrange(1 << 30)])
         workers.append({'hashseed': rng.randrange(0, 4294967295), 'clock': [rng.randrange(10**9, 2 * 10**9), rng.choice([0.001, 1, 3600, 86400 * 40])],
                         'history': hist, 'pid': rng.randrange(2, 4194304)})
     return {'programs': programs, 'workers': workers}
@@ -72,13 +77,18 @@ def run_worker(w, programs):
     env = {k: v for k, v in os.environ.items() if k not in ('PYTHONHASHSEED',)}
     env['PYTHONHASHSEED'] = str(w['hashseed'])
     env['PYTHONDONTWRITEBYTECODE'] = '1'
-    hist = [[pi % len(programs), oi] for pi, oi in w['history']] if programs else []
+    hist = []
+    for e in (w['history'] if programs else []):
+        if e[0] == 'par':
+            hist.append(['par', [e[1][0] % len(programs), e[1][1]], [e[2][0] % len(programs), e[2][1]], e[3]])
+        else:
+            hist.append([e[0] % len(programs), e[1]])
     job = {'src': os.path.join(core.REPO, 'src'), 'clock': w['clock'], 'pid': w.get('pid', 4242), 'programs': programs, 'history': hist, 'options': OPTIONS}
     r = subprocess.run([sys.executable, os.path.join(os.path.dirname(os.path.dirname(os.path.abspath(__file__))), 'c18_worker.py')],
                        input=json.dumps(job), env=env, capture_output=True, text=True, timeout=100)
     if r.returncode != 0:
         raise core.HarnessError('c18 worker failed: ' + r.stderr[-2000:])
-    return json.loads(r.stdout)['out']
+    return json.loads(r.stdout)
 
 
 def interesting(text):
@@ -98,10 +108,19 @@ def execute(plan):
         if not programs:
             break
         log.count('interpreters')
-        out = run_worker(w, programs)
-        log.ev('worker', wi, w['hashseed'], len(out))
-        for pos, (pi, oi, outcome, text, dbg, err) in enumerate(out):
+        res = run_worker(w, programs)
+        out = res['out']
+        st = res.get('stats', {})
+        if st.get('par_pairs'):
+            log.count('pairs_compiled_concurrently', st['par_pairs'])
+            log.count('thread_preemptions', st['preemptions'])
+            log.count('thread_preemptions_in_compiler_py', st['preemptions_in_compiler_py'])
+        log.ev('worker', wi, w['hashseed'], len(out), st.get('preemptions', 0))
+        for pos, rec in enumerate(out):
+            pi, oi, outcome, text, dbg, err = rec[:6]
             log.count('compilations')
+            if len(rec) > 6:
+                log.count('compiled_while_another_thread_compiles')
             if outcome != 'ok':
                 log.count('outcome_' + outcome)
             key = (pi, oi)
